@@ -365,6 +365,7 @@ def _c01(tier):
           mc("programs-2-nodes-defaulted-input", "MC_C01.tla", "MC_C01_quick_dflt.cfg", min_cases=5000, workers=4),
           mc("recurrent-pipelines-3-nodes", "MC_C01.tla", "MC_C01_rec.cfg" if tier == "thorough" else "MC_C01_rec_small.cfg",
              min_cases=100, timeout=1200, workers=4)]
+    st.append(trace("random-programs-node-trace", ["run", "-n", "80" if tier == "quick" else "1500"], "Trace_Run.tla", "Trace_Run.cfg"))
     if tier == "thorough":
         st.append(mc("programs-3-nodes", "MC_C01.tla", "MC_C01_thorough.cfg", min_cases=50000, timeout=6000))
     return st
@@ -386,6 +387,7 @@ def _c02(tier):
           mc("histories-3-calls-single-input-models", "MC_C02.tla", "MC_C02_quick3.cfg", min_cases=1000, workers=6),
           design("asis-effects-antivacuity", "MC_C02.tla", "MC_C02_asis.cfg", expect_rc=[12, 13], workers=2,
                  note="with the as-is effect summaries (in-place reshape of bias / initial state / ArgMax input) TLC must find a history that violates WeightsAndCallerTensorsImmutable")]
+    st.append(trace("random-programs-repeated-runs-trace", ["run", "-n", "60" if tier == "quick" else "1000"], "Trace_Run.tla", "Trace_Run.cfg"))
     if tier == "thorough":
         st.append(mc("histories-3-calls", "MC_C02.tla", "MC_C02_thorough.cfg", min_cases=50000, timeout=3000))
     return st
